@@ -243,6 +243,30 @@ def exc_name(e):
     return table.get(n, 'Other:' + n)
 
 
+def game_from_buffers(mem, share=True):
+    """A Game whose five regions were built through the PUBLIC constructors (cls.from_bytes) from caller-owned
+    bytearrays, the way library users assemble carts; when `share` and two same-size regions have equal contents
+    (gff / music), both are given the SAME caller buffer. The regions must still be independent objects in
+    memory-map terms: an edit of one must not show up in another. -> (game, [gfx, map, gff, music, sfx], buffers)"""
+    from pico8.game.game import Game
+    from pico8.gfx.gfx import Gfx
+    from pico8.map.map import Map
+    from pico8.gff.gff import Gff
+    from pico8.music.music import Music
+    from pico8.sfx.sfx import Sfx
+    g = Game.make_empty_game()
+    v = g.version
+    bufs = [bytearray(unhx(h)) for h in mem]
+    if share and bufs[2] == bufs[3]:
+        bufs[3] = bufs[2]
+    g.gfx = Gfx.from_bytes(bufs[0], version=v)
+    g.map = Map.from_bytes(bufs[1], version=v, gfx=g.gfx)
+    g.gff = Gff.from_bytes(bufs[2], version=v)
+    g.music = Music.from_bytes(bufs[3], version=v)
+    g.sfx = Sfx.from_bytes(bufs[4], version=v)
+    return g, [g.gfx, g.map, g.gff, g.music, g.sfx], bufs
+
+
 class Timeout(Exception):
     pass
 
